@@ -146,7 +146,11 @@ class WriteExtractor:
                                 self.writer_names.add(pat[1])
                             else:
                                 p = self.path_of(init, env2)
-                                if p is not None:
+                                tb = TO_BYTES.match(H.mcall(init)["path"]) if H.is_mcall(init) else None
+                                if tb:
+                                    # let x = <value>.to_le_bytes(): the byte image of a value, written whole or in pieces (&x[a..b])
+                                    env2[pat[1]] = {"kind": "byteimage", "ty": tb.group(1), "e": tb.group(2), "src": self.source(H.mcall(init)["recv"], env2)}
+                                elif p is not None:
                                     env2[pat[1]] = p
                                 else:
                                     env2[pat[1]] = self.source(init, env2)
@@ -199,6 +203,37 @@ class WriteExtractor:
     def bytes_item(self, arg, env, span):
         """argument of write_all -> Item"""
         a = H.strip_refs(arg)
+        # a let-bound byte image, whole (&x) or a piece of it (&x[a..b]): bytes a..b of the little-endian image are the integer
+        # (value >> 8a) truncated to b-a bytes
+        img, lo_, hi_ = None, None, None
+        if H.tag(a) == "local" and isinstance(env.get(a[1]), dict) and env[a[1]].get("kind") == "byteimage":
+            img = env[a[1]]
+            lo_, hi_ = 0, WIDTH[img["ty"]]
+        elif H.tag(a) == "idx" and H.tag(H.strip_refs(a[3])) == "local" and isinstance(env.get(H.strip_refs(a[3])[1]), dict) and env[H.strip_refs(a[3])[1]].get("kind") == "byteimage":
+            img = env[H.strip_refs(a[3])[1]]
+            r = H.strip(a[4])
+            full = WIDTH[img["ty"]]
+            if H.tag(r) == "struct" and r[1].split("<")[0].endswith(("::Range", "::RangeTo", "::RangeFrom")):
+                f = {k: v for k, v in r[2]}
+                lo_ = H.lit_int(f["start"]) if "start" in f else 0
+                hi_ = H.lit_int(f["end"]) if "end" in f else full
+            elif H.tag(r) == "call" and "RangeInclusive" in (H.call_path(r) or "") and len(H.call_args(r)) == 2:
+                lo_ = H.lit_int(H.call_args(r)[0])
+                hi_ = (H.lit_int(H.call_args(r)[1]) or -2) + 1
+            if lo_ is None or hi_ is None or not (0 <= lo_ < hi_ <= full):
+                img = None
+        if img is not None and img["e"] == "le":
+            src = dict(img["src"])
+            ops = list(src.get("ops", []))
+            if lo_ > 0:
+                ops = [("shr", 8 * lo_)] + ops
+            src["ops"] = ops
+            w_ = hi_ - lo_
+            ty_ = {1: "u8", 2: "u16", 4: "u32", 8: "u64"}.get(w_, img["ty"])
+            return Item({"k": "float" if img["ty"].startswith("f") and w_ == WIDTH[img["ty"]] else "int", "w": w_, "e": "le", "signed": img["ty"].startswith("i") and hi_ == WIDTH[img["ty"]],
+                         "ty": ty_, "src": src, "span": span})
+        if img is not None and img["e"] == "be" and (lo_, hi_) == (0, WIDTH[img["ty"]]):
+            return Item({"k": "float" if img["ty"].startswith("f") else "int", "w": hi_, "e": "be", "signed": img["ty"].startswith("i"), "ty": img["ty"], "src": dict(img["src"]), "span": span})
         # .as_slice()
         if H.is_mcall(a) and H.mcall(a)["name"] == "as_slice":
             a = H.strip_refs(H.mcall(a)["recv"])
